@@ -46,33 +46,37 @@ IsSubDecl(c, k) == k \in Anc({c}, Cardinality(Classes))
 
 -----------------------------------------------------------------------------
 (* Program construction.                                                                          *)
-Mk(d, r) == [k |-> "mark", n |-> 100 * d + r]
+(* every statement record carries ln (its line) and nx (line of the statement following it in the  *)
+(* same block, 0 = none); the constructors leave them 0, Program fills them in                     *)
+Mk(d, r) == [k |-> "mark", n |-> 100 * d + r, ln |-> 0, nx |-> 0]
 B(d, x) == << Mk(d, 1), x, Mk(d, 2) >>
-H(cls, as, body) == [cls |-> cls, as |-> as, body |-> body]   \* cls = <<>>: bare except
-Try(body, hs, orelse, fin) == [k |-> "try", body |-> body, hs |-> hs, orelse |-> orelse, fin |-> fin]
+H(cls, as, body) == [cls |-> cls, as |-> as, body |-> body, ln |-> 0]   \* cls = <<>>: bare except
+Try(body, hs, orelse, fin) == [k |-> "try", body |-> body, hs |-> hs, orelse |-> orelse, fin |-> fin, ln |-> 0, nx |-> 0]
+For(it, body, orelse) == [k |-> "for", it |-> it, body |-> body, orelse |-> orelse, ln |-> 0, nx |-> 0]
+With(cm, body) == [k |-> "with", cm |-> cm, body |-> body, ln |-> 0, nx |-> 0, last |-> 0]
 Cm(d, er, xs, xr) == [k |-> 100 * d + 50, er |-> er, xs |-> xs, xr |-> xr]   \* xs: "none" | "true" | "one"
-RaiseS(e) == [k |-> "raise", e |-> e]
-Simple(k) == [k |-> k]
+RaiseS(e) == [k |-> "raise", e |-> e, ln |-> 0, nx |-> 0]
+Simple(k) == [k |-> k, ln |-> 0, nx |-> 0]
 
 Leaves == { Simple("pass"), RaiseS("KeyError"), RaiseS("ValueError"), Simple("reraise"), Simple("ret"),
             Simple("brk"), Simple("cont"), Simple("enterraise") }
 LeafName(lf) == IF lf.k = "raise" THEN "raise:" \o lf.e ELSE lf.k
-LeafStmt(lf, d) == IF lf.k = "enterraise" THEN [k |-> "with", cm |-> Cm(d, TRUE, "none", FALSE), body |-> << Mk(d, 1) >>]
+LeafStmt(lf, d) == IF lf.k = "enterraise" THEN With(Cm(d, TRUE, "none", FALSE), << Mk(d, 1) >>)
                    ELSE lf
 
 Contexts == { "forbody", "forelse", "foriter", "whilebody", "ifthen",
               "tfbody", "tffin", "tffinexc", "tffinret",
-              "tebody1", "tebody2", "tebody3", "tehandler", "tehandleras", "teelse", "tefbody", "tefhandler",
+              "tebody1", "tebody2", "tebody3", "tehandler", "tehandleras", "tehandlerre", "teelse", "tefbody", "tefhandler",
               "withn", "withs", "witht", "withx", "call" }
 (* contexts whose hole runs while an exception is being handled (bare raise is meaningful there) *)
-HandlingCtx == { "tehandler", "tehandleras", "tefhandler", "tffinexc" }
+HandlingCtx == { "tehandler", "tehandleras", "tehandlerre", "tefhandler", "tffinexc" }
 
 Wrap(c, d, x) ==
-  CASE c = "forbody"   -> [k |-> "for", it |-> "range", body |-> B(d, x), orelse |-> << Mk(d, 3) >>]
-    [] c = "forelse"   -> [k |-> "for", it |-> "range", body |-> << Mk(d, 1) >>, orelse |-> << Mk(d, 3), x, Mk(d, 4) >>]
-    [] c = "foriter"   -> [k |-> "for", it |-> "raising", body |-> B(d, x), orelse |-> << Mk(d, 3) >>]
-    [] c = "whilebody" -> [k |-> "while", body |-> B(d, x), orelse |-> << Mk(d, 3) >>]
-    [] c = "ifthen"    -> [k |-> "if", then |-> B(d, x), orelse |-> << Mk(d, 3) >>]
+  CASE c = "forbody"   -> For("range", B(d, x), << Mk(d, 3) >>)
+    [] c = "forelse"   -> For("range", << Mk(d, 1) >>, << Mk(d, 3), x, Mk(d, 4) >>)
+    [] c = "foriter"   -> For("raising", B(d, x), << Mk(d, 3) >>)
+    [] c = "whilebody" -> [k |-> "while", body |-> B(d, x), orelse |-> << Mk(d, 3) >>, ln |-> 0, nx |-> 0]
+    [] c = "ifthen"    -> [k |-> "if", then |-> B(d, x), orelse |-> << Mk(d, 3) >>, ln |-> 0, nx |-> 0]
     [] c = "tfbody"    -> Try(B(d, x), <<>>, <<>>, << Mk(d, 5) >>)
     [] c = "tffin"     -> Try(<< Mk(d, 1) >>, <<>>, <<>>, << Mk(d, 5), x, Mk(d, 6) >>)
     [] c = "tffinexc"  -> Try(<< Mk(d, 1), RaiseS("KeyError") >>, <<>>, <<>>, << Mk(d, 5), x, Mk(d, 6) >>)
@@ -85,15 +89,19 @@ Wrap(c, d, x) ==
     [] c = "tehandler" -> Try(<< Mk(d, 1), RaiseS("KeyError") >>, << H(<<"LookupError">>, FALSE, << Mk(d, 7), x, Mk(d, 8) >>) >>,
                               << Mk(d, 4) >>, <<>>)
     [] c = "tehandleras" -> Try(<< Mk(d, 1), RaiseS("KeyError") >>, << H(<<"KeyError">>, TRUE, << Mk(d, 7), x, Mk(d, 8) >>) >>, <<>>, <<>>)
+    \* the handler ends with a bare raise AFTER the hole: whatever was raised and handled inside the hole,
+    \* the exception re-raised is the one this handler caught
+    [] c = "tehandlerre" -> Try(<< Mk(d, 1), RaiseS("KeyError") >>,
+                                << H(<<"KeyError">>, FALSE, << Mk(d, 7), x, Mk(d, 8), Simple("reraise") >>) >>, <<>>, <<>>)
     [] c = "teelse"    -> Try(<< Mk(d, 1) >>, << H(<<"LookupError">>, FALSE, << Mk(d, 7) >>) >>, << Mk(d, 3), x, Mk(d, 4) >>, <<>>)
     [] c = "tefbody"   -> Try(B(d, x), << H(<<"ValueError">>, FALSE, << Mk(d, 7) >>) >>, <<>>, << Mk(d, 5) >>)
     [] c = "tefhandler" -> Try(<< Mk(d, 1), RaiseS("ValueError") >>, << H(<<"ValueError">>, FALSE, << Mk(d, 7), x, Mk(d, 8) >>) >>,
                                <<>>, << Mk(d, 5) >>)
-    [] c = "withn"     -> [k |-> "with", cm |-> Cm(d, FALSE, "none", FALSE), body |-> B(d, x)]
-    [] c = "withs"     -> [k |-> "with", cm |-> Cm(d, FALSE, "true", FALSE), body |-> B(d, x)]
-    [] c = "witht"     -> [k |-> "with", cm |-> Cm(d, FALSE, "one", FALSE), body |-> B(d, x)]
-    [] c = "withx"     -> [k |-> "with", cm |-> Cm(d, FALSE, "none", TRUE), body |-> B(d, x)]
-    [] c = "call"      -> [k |-> "call", body |-> B(d, x)]
+    [] c = "withn"     -> With(Cm(d, FALSE, "none", FALSE), B(d, x))
+    [] c = "withs"     -> With(Cm(d, FALSE, "true", FALSE), B(d, x))
+    [] c = "witht"     -> With(Cm(d, FALSE, "one", FALSE), B(d, x))
+    [] c = "withx"     -> With(Cm(d, FALSE, "none", TRUE), B(d, x))
+    [] c = "call"      -> [k |-> "call", body |-> B(d, x), ln |-> 0, nx |-> 0, cl |-> 0]
 
 RECURSIVE Build(_, _, _)
 Build(p, lf, d) == IF p = <<>> THEN LeafStmt(lf, d) ELSE Wrap(Head(p), d, Build(Tail(p), lf, d + 1))
@@ -108,28 +116,27 @@ RECURSIVE LayS(_, _), Lay1(_, _), LayH(_, _)
 LayS(ss, l) == IF ss = <<>> THEN [ss |-> <<>>, nl |-> l]
                ELSE LET h == Lay1(Head(ss), l)
                         t == LayS(Tail(ss), h.nl)
-                    IN [ss |-> << h.s @@ [nx |-> IF Tail(ss) = <<>> THEN 0 ELSE h.nl] >> \o t.ss, nl |-> t.nl]
+                    IN [ss |-> << [h.s EXCEPT !.nx = IF Tail(ss) = <<>> THEN 0 ELSE h.nl] >> \o t.ss, nl |-> t.nl]
 LayH(hs, l) == IF hs = <<>> THEN [hs |-> <<>>, nl |-> l]
                ELSE LET b == LayS(Head(hs).body, l + 1)
                         t == LayH(Tail(hs), b.nl)
-                    IN [hs |-> << [Head(hs) EXCEPT !.body = b.ss] @@ [ln |-> l] >> \o t.hs, nl |-> t.nl]
+                    IN [hs |-> << [Head(hs) EXCEPT !.body = b.ss, !.ln = l] >> \o t.hs, nl |-> t.nl]
 (* optional clause: header line + block, nothing when the block is empty *)
 LayOpt(ss, l) == IF ss = <<>> THEN [ss |-> <<>>, nl |-> l] ELSE LayS(ss, l + 1)
 Lay1(s, l) ==
   CASE s.k = "if" -> LET a == LayS(s.then, l + 1)  b == LayOpt(s.orelse, a.nl)
-                     IN [s |-> [k |-> "if", ln |-> l, then |-> a.ss, orelse |-> b.ss], nl |-> b.nl]
-    [] s.k = "for" -> LET a == LayS(s.body, l + 1)  b == LayOpt(s.orelse, a.nl)
-                      IN [s |-> [k |-> "for", it |-> s.it, ln |-> l, body |-> a.ss, orelse |-> b.ss], nl |-> b.nl]
-    [] s.k = "while" -> LET a == LayS(s.body, l + 1)  b == LayOpt(s.orelse, a.nl)
-                        IN [s |-> [k |-> "while", ln |-> l, body |-> a.ss, orelse |-> b.ss], nl |-> b.nl]
+                     IN [s |-> [s EXCEPT !.ln = l, !.then = a.ss, !.orelse = b.ss], nl |-> b.nl]
+    [] s.k \in {"for", "while"} ->
+                     LET a == LayS(s.body, l + 1)  b == LayOpt(s.orelse, a.nl)
+                     IN [s |-> [s EXCEPT !.ln = l, !.body = a.ss, !.orelse = b.ss], nl |-> b.nl]
     [] s.k = "try" -> LET a == LayS(s.body, l + 1)  h == LayH(s.hs, a.nl)
                           o == LayOpt(s.orelse, h.nl)  f == LayOpt(s.fin, o.nl)
-                      IN [s |-> [k |-> "try", ln |-> l, body |-> a.ss, hs |-> h.hs, orelse |-> o.ss, fin |-> f.ss], nl |-> f.nl]
+                      IN [s |-> [s EXCEPT !.ln = l, !.body = a.ss, !.hs = h.hs, !.orelse = o.ss, !.fin = f.ss], nl |-> f.nl]
     [] s.k = "with" -> LET a == LayS(s.body, l + 1)
-                       IN [s |-> [k |-> "with", ln |-> l, cm |-> s.cm, body |-> a.ss, last |-> a.nl - 1], nl |-> a.nl]
+                       IN [s |-> [s EXCEPT !.ln = l, !.body = a.ss, !.last = a.nl - 1], nl |-> a.nl]
     [] s.k = "call" -> LET a == LayS(s.body, l + 1)
-                       IN [s |-> [k |-> "call", ln |-> l, body |-> a.ss, cl |-> a.nl], nl |-> a.nl + 1]
-    [] OTHER -> [s |-> s @@ [ln |-> l], nl |-> l + 1]
+                       IN [s |-> [s EXCEPT !.ln = l, !.body = a.ss, !.cl = a.nl], nl |-> a.nl + 1]
+    [] OTHER -> [s |-> [s EXCEPT !.ln = l], nl |-> l + 1]
 Program(p, lf) == LayS(RawProgram(p, lf), 2).ss
 
 -----------------------------------------------------------------------------
@@ -165,13 +172,13 @@ Where1(s, w) ==
 
 (* generated programs: bare raise only where an exception is being handled in the same function; *)
 (* programs that must be rejected only up to SynDepth (all of them are in the quick tier)         *)
-Admit(p, lf, pg) ==
-  /\ lf.k = "reraise" => \E i \in 1..Len(p) : p[i] \in HandlingCtx /\ \A j \in (i + 1)..Len(p) : p[j] # "call"
-  /\ SyntaxErr(pg) => Len(p) <= SynDepth
+AdmitLeaf(p, lf) ==
+  lf.k = "reraise" => \E i \in 1..Len(p) : p[i] \in HandlingCtx /\ \A j \in (i + 1)..Len(p) : p[j] # "call"
+LeafByName(n) == CHOOSE lf \in Leaves : LeafName(lf) = n
 
 -----------------------------------------------------------------------------
 (* The machine.                                                                                   *)
-VARIABLES st,    \* "gen" | "run" | "done"
+VARIABLES st,    \* "gen" | "leaf" | "run" | "done" | "skip"
           path,  \* contexts chosen so far (outermost first); once the leaf is chosen its name is appended
           prog,  \* the program (annotated tree), <<>> while generating
           run    \* [ks, comp, log, inp, g]
@@ -337,15 +344,22 @@ GenCtx == /\ st = "gen" /\ Len(path) < Depth
           /\ \E c \in Contexts : path' = Append(path, c)
           /\ UNCHANGED << st, prog, run >>
 GenLeaf == /\ st = "gen" /\ Len(path) >= MinDepth
-           /\ \E lf \in Leaves :
-                LET pg == Program(path, lf) IN
-                /\ Admit(path, lf, pg)
-                /\ prog' = pg
-                /\ path' = Append(path, LeafName(lf))
-                /\ IF SyntaxErr(pg)
-                   THEN /\ st' = "done" /\ run' = [Run0(pg) EXCEPT !.ks = <<>>, !.comp = Cmp("syntax")]
-                        /\ PrintT(ToJson(SynRecord(path', pg)))
-                   ELSE /\ st' = "run" /\ run' = Run0(pg)
+           /\ \E lf \in Leaves : AdmitLeaf(path, lf) /\ path' = Append(path, LeafName(lf))
+           /\ st' = "leaf"
+           /\ UNCHANGED << prog, run >>
+(* build the program; what the compiler must reject is not run (and dropped beyond SynDepth) *)
+Start == /\ st = "leaf"
+         /\ LET p == SubSeq(path, 1, Len(path) - 1)
+                pg == Program(p, LeafByName(path[Len(path)]))
+                bad == SyntaxErr(pg) IN
+            IF bad /\ Len(p) > SynDepth
+            THEN /\ st' = "skip" /\ UNCHANGED << prog, run >>
+            ELSE /\ prog' = pg
+                 /\ IF bad
+                    THEN /\ st' = "done" /\ run' = [Run0(pg) EXCEPT !.ks = <<>>, !.comp = Cmp("syntax")]
+                         /\ PrintT(ToJson(SynRecord(path, pg)))
+                    ELSE /\ st' = "run" /\ run' = Run0(pg)
+         /\ UNCHANGED path
 Step == /\ st = "run" /\ run.ks # <<>>
         /\ \E r \in Steps(run) : run' = r
         /\ UNCHANGED << st, path, prog >>
@@ -353,10 +367,10 @@ Finish == /\ st = "run" /\ run.ks = <<>>
           /\ st' = "done"
           /\ PrintT(ToJson(Record(run)))
           /\ UNCHANGED << path, prog, run >>
-Idle == st = "done" /\ UNCHANGED vars     \* so that deadlock = a stuck run
+Idle == st \in {"done", "skip"} /\ UNCHANGED vars     \* so that deadlock = a stuck run
 
-Next == GenCtx \/ GenLeaf \/ Step \/ Finish \/ Idle
-NextSim == GenCtx \/ GenLeaf \/ Step \/ Finish
+Next == GenCtx \/ GenLeaf \/ Start \/ Step \/ Finish \/ Idle
+NextSim == GenCtx \/ GenLeaf \/ Start \/ Step \/ Finish
 Spec == Init /\ [][Next]_vars
 SpecSim == Init /\ [][NextSim]_vars
 
@@ -382,8 +396,8 @@ EscapeIntact == (st = "done" /\ run.comp.t = "exc") =>
                   LET r == run.g.raises[run.comp.id] IN run.comp.e = r.e /\ run.comp.tb = r.tb
 FinalOK == st = "done" => run.comp.t \in {"norm", "ret", "exc", "syntax"}
 (* what must be a SyntaxError never runs *)
-RejectedNeverRuns == st = "run" => ~SyntaxErr(prog)
-TypeOK == /\ st \in {"gen", "run", "done"} /\ Len(path) <= Depth + 1 /\ Len(run.inp) <= 64
+RejectedNeverRuns == (st = "run" /\ run.log = <<>>) => ~SyntaxErr(prog)   \* checked where a run starts
+TypeOK == /\ st \in {"gen", "leaf", "skip", "run", "done"} /\ Len(path) <= Depth + 1 /\ Len(run.inp) <= 64
 
 Meta == [meta |-> TRUE,
          classes |-> { [name |-> c, parent |-> Parent[c], code |-> CodeOf(c)] : c \in Classes },
